@@ -1120,6 +1120,8 @@ func certainlyNonNil(v ssa.Value) bool {
 	switch x := v.(type) {
 	case *ssa.Alloc, *ssa.MakeMap, *ssa.MakeChan, *ssa.MakeSlice, *ssa.MakeClosure:
 		return true
+	case *ssa.FieldAddr, *ssa.IndexAddr:
+		return true // the address of a field / element: computing it from a nil base would already have panicked
 	case *ssa.Call:
 		switch calleeOf(&x.Call).Name() {
 		case "fmt.Errorf", "errors.New":
